@@ -125,20 +125,27 @@ func (c serviceCodec) decodeArguments(method Method, decoder *io.Decoder) (args 
 	}
 	count := decoder.ReadCount()
 	parameters := method.Parameters()
-	paramTypes := make([]reflect.Type, count)
-	if method.Func().Type().IsVariadic() {
-		n := len(parameters)
-		copy(paramTypes, parameters[:n-1])
-		for i := n - 1; i < count; i++ {
-			paramTypes[i] = parameters[n-1].Elem()
+	n := len(parameters)
+	variadic := method.Func().Type().IsVariadic()
+	// the count comes from the wire: the type of an argument is worked out as it is read, the
+	// arguments are appended as they really arrive, and the loop stops at the first error
+	paramType := func(i int) reflect.Type {
+		switch {
+		case variadic && i >= n-1:
+			return parameters[n-1].Elem()
+		case i < n:
+			return parameters[i]
 		}
-	} else {
-		copy(paramTypes, parameters)
+		return nil
 	}
-	args = make([]interface{}, count)
+	if count < n {
+		args = make([]interface{}, 0, count)
+	} else {
+		args = make([]interface{}, 0, n)
+	}
 	decoder.AddReference(&args)
-	for i := 0; i < count; i++ {
-		args[i] = decoder.Read(paramTypes[i])
+	for i := 0; i < count && decoder.Error == nil; i++ {
+		args = append(args, decoder.Read(paramType(i)))
 	}
 	decoder.Skip()
 	return args, decoder.Error
